@@ -319,28 +319,88 @@ def apply_linear(scn, v, o):
     normalised weight matrix, which is what the builder guarantees)."""
     if not _ok(o):
         return []
-    obj, W = o["obj"], o["W"]
-    n = W.shape[0]
-    sym = RS.issym(*W.ravel())
+    A, W = o["apply"], o["W"]
+    a, b = A["a"], A["b"]
+    out = [Rel("true", len(A["lhs"]) == W.shape[1], "apply returns one value per data point")]
+    for i in range(len(A["lhs"])):
+        out.append(Rel("eq", A["lhs"][i], a * A["rf"][i] + b * A["rg"][i],
+                       "apply(a f + b g)[%d] = a apply(f) + b apply(g)" % i))
+        out.append(Rel("eq", A["flat"][i], 1.0, "apply(1)[%d] = 1" % i))
+    return out
+
+
+def _theory_vectors(n, sym):
     if sym:
-        f = symx.oarray(symx.reals("f", n))
-        g = symx.oarray(symx.reals("g", n))
-        a, b = symx.real("a"), symx.real("b")
-        ones = symx.oarray([Sym(symx.rat(1))] * n)
-    else:
-        rnd = random.Random(7)
-        f = np.array([rnd.uniform(0.5, 2) for _ in range(n)])
-        g = np.array([rnd.uniform(0.5, 2) for _ in range(n)])
-        a, b = 1.75, -0.375
-        ones = np.ones(n)
-    with (RS.real_code() if not sym else _null()):
-        lhs = obj.apply(a * f + b * g)
-        rf, rg = obj.apply(f), obj.apply(g)
-        flat = obj.apply(ones)
-    out = [Rel("true", len(lhs) == W.shape[1], "apply returns one value per data point")]
-    for i in range(len(lhs)):
-        out.append(Rel("eq", lhs[i], a * rf[i] + b * rg[i], "apply(a f + b g)[%d] = a apply(f) + b apply(g)" % i))
-        out.append(Rel("eq", flat[i], 1.0, "apply(1)[%d] = 1" % i))
+        return (symx.oarray(symx.reals("f", n)), symx.oarray(symx.reals("g", n)),
+                symx.real("a"), symx.real("b"), symx.oarray([Sym(symx.rat(1))] * n))
+    rnd = random.Random(7)
+    return (np.array([rnd.uniform(0.5, 2) for _ in range(n)]),
+            np.array([rnd.uniform(0.5, 2) for _ in range(n)]), 1.75, -0.375, np.ones(n))
+
+
+def p2_shape(scn, v, o):
+    if not _ok(o):
+        return []
+    n = len(v["qx"])
+    if o["weights"] is None:
+        return [Rel("true", len(o["qx_calc"]) == n, "no resolution: q_calc is the data grid")] + \
+               [Rel("eq", o["qx_calc"][i], v["qx"][i], "qx_calc = qx") for i in range(n)] + \
+               [Rel("eq", o["qy_calc"][i], v["qy"][i], "qy_calc = qy") for i in range(n)]
+    nb = o["nbins"]
+    out = [Rel("true", len(o["qx_calc"]) == nb * n and len(o["qy_calc"]) == nb * n,
+               "q_calc holds nr*nphi points per data point"),
+           Rel("true", len(o["weights"]) == nb, "one weight per cloud point")]
+    out += [Rel("ge", float(w), 0.0, "Gaussian ring weight %d >= 0" % k) for k, w in enumerate(o["weights"])]
+    out += [Rel("gt", float(np.sum(o["weights"])), 0.0, "ring weights do not all vanish")]
+    return out
+
+
+def p2_apply(scn, v, o):
+    """apply = weighted mean: linear, returns a flat intensity unchanged; without
+    resolution information it is the identity."""
+    if not _ok(o):
+        return []
+    A = o["apply"]
+    n = len(v["qx"])
+    a, b = A["a"], A["b"]
+    out = [Rel("true", len(A["lhs"]) == n, "apply returns one value per data point")]
+    for i in range(n):
+        out.append(Rel("eq", A["lhs"][i], a * A["rf"][i] + b * A["rg"][i],
+                       "apply(a f + b g)[%d] = a apply(f) + b apply(g)" % i))
+        out.append(Rel("eq", A["flat"][i], 1.0, "apply(1)[%d] = 1" % i))
+        if o["weights"] is None:
+            out.append(Rel("eq", A["rf"][i], A["f"][i], "no resolution: apply is the identity"))
+    return out
+
+
+def perfect_id(scn, v, o):
+    if not _ok(o):
+        return []
+    q, A = v["q"], o["apply"]
+    return [Rel("true", len(o["qcalc"]) == len(q), "q_calc is q")] + \
+           [Rel("eq", o["qcalc"][i], q[i], "q_calc[%d] = q[%d]" % (i, i)) for i in range(len(q))] + \
+           [Rel("eq", A["rf"][i], A["f"][i], "apply is the identity") for i in range(len(q))]
+
+
+def dm_linear(scn, v, o):
+    """scale and background pass through smearing linearly:
+    theory(scale, bg) = scale * theory(1, 0) + bg; the kernel is asked for
+    exactly resolution.q_calc; a missing background means the model default."""
+    if not _ok(o):
+        return []
+    full, unit, dflt = o["full"], o["unit"], o["default_bg"]
+    out = [Rel("true", len(full) == len(unit), "one value per data point")]
+    for i in range(len(full)):
+        out.append(Rel("eq", full[i], v["scale"] * unit[i] + v["bg"],
+                       "theory(scale,bg)[%d] = scale*theory(1,0) + bg" % i))
+        out.append(Rel("eq", dflt[i], v["scale"] * unit[i] + 0.001,
+                       "missing background -> model default, added after smearing"))
+    res, kern = o["res"], o["mix"]._kernel
+    qc = res.q_calc if isinstance(res.q_calc, (list, tuple)) else [res.q_calc]
+    out.append(Rel("true", len(kern.q_vectors) == len(qc), "kernel gets resolution.q_calc"))
+    for a, b in zip(kern.q_vectors, qc):
+        out.append(Rel("true", len(a) == len(b), "kernel gets resolution.q_calc"))
+        out += [Rel("eq", x, y, "kernel q = resolution.q_calc") for x, y in zip(a, b)]
     return out
 
 
@@ -362,6 +422,10 @@ ORACLES = {
     "slit1d": [("defined", ctor_defined), ("grid", ctor_grid), ("builder-args", s1_args),
                ("stores-result", ctor_stores), ("coverage", s1_cover), ("normalised", s1_norm),
                ("apply", apply_linear)],
+    "pinhole2d": [("defined", ctor_defined), ("cloud-shape-and-weights", p2_shape), ("apply", p2_apply)],
+    "slit2d": [("defined", ctor_defined)],
+    "perfect1d": [("defined", ctor_defined), ("identity", perfect_id)],
+    "direct-model": [("defined", ctor_defined), ("scale-background-linear", dm_linear)],
 }
 
 
@@ -439,6 +503,13 @@ def classify(scn, oname, v, o_sym, vals=None, bad=()):
             block = symx._lb(s1_floor(scn, v))
     elif kind == "slit-matrix":
         key = "%s/slit-matrix-%s/%s" % (PID, cfg["mode"], oname)
+    elif kind == "slit2d" and oname == "defined":
+        key = "%s/slit2d/apply-raises" % PID
+        block = z3.BoolVal(True)
+    elif kind == "direct-model":
+        key = "%s/direct-model-%s/%s" % (PID, cfg["dtype"], oname)
+        if cfg["dtype"] == "oriented" and oname == "defined":
+            block = z3.BoolVal(True)
     return key, block
 
 
@@ -448,15 +519,17 @@ def classify(scn, oname, v, o_sym, vals=None, bad=()):
 def make(kind, cfg):
     cls = {"pinhole-matrix": RS.PinholeMatrix, "pinhole-matrix-zero-width": RS.PinholeMatrixZero,
            "qperp": RS.QPerp, "slit-matrix": RS.SlitMatrix, "pinhole1d": RS.Pinhole1D,
-           "slit1d": RS.Slit1D}[kind]
+           "slit1d": RS.Slit1D, "pinhole2d": RS.Pinhole2D, "slit2d": RS.Slit2D,
+           "perfect1d": RS.Perfect, "direct-model": RS.Direct}[kind]
     return cls(**cfg)
 
 
-def replay_numeric(scn, oname, vals):
+def replay_numeric(scn, oname, vals, spec=None):
     """Real code on floats; which relations of oracle *oname* are violated."""
+    spec = spec or _SELF
     o = scn.run_real(vals)
-    fn = dict(oracles_for(scn))[oname]
-    pre = preconditions(scn, vals, o)
+    fn = dict(spec.oracles_for(scn))[oname]
+    pre = spec.preconditions(scn, vals, o)
     if not all(pre):
         return [], o
     if "exc" in o and oname in ("defined", "grid"):
@@ -467,12 +540,14 @@ def replay_numeric(scn, oname, vals):
     return bad, o
 
 
-def handler(scn, oname, o_sym):
+def handler(scn, oname, o_sym, spec=None):
+    spec = spec or _SELF
+
     def on_cex(m):
         env = RS.env_of(m, scn.symlist())
         vals = scn.concrete(env)
-        bad, o = replay_numeric(scn, oname, vals)
-        key, block = classify(scn, oname, scn.syms, o_sym, vals, bad)
+        bad, o = replay_numeric(scn, oname, vals, spec)
+        key, block = spec.classify(scn, oname, scn.syms, o_sym, vals, bad)
         inputs = {"kind": scn.kind, "cfg": scn.cfg, "oracle": oname,
                   "values": {k: (np.asarray(x).tolist() if x is not None else None) for k, x in vals.items()}}
         return {"reproduced": bool(bad), "key": key, "block": block, "inputs": inputs,
@@ -488,7 +563,9 @@ def outputs_of(p):
     return p.result
 
 
-def unit(job):
+def run_unit(job, spec):
+    """Explore one scenario and discharge the obligations of *spec* (the
+    property module: PID, oracles_for, classify, guarantees, preconditions)."""
     kind, cfg = job
     scn = make(kind, cfg)
     u = RS.RUnit(scn.name, timeout_ms=60000)
@@ -510,14 +587,14 @@ def unit(job):
         dom = p.notes.get("dom", [])
         pp = RS.PathProver(u, H)
         # leaf side conditions: sqrt/log arguments in their domain
-        if dom:
-            pp.prove("leaf-domain", z3.And(*[c for _l, c in dom]), handler(scn, "defined", o))
-        pp.add_hyps([c for _l, c in dom] + guarantees(scn, v, o, p.notes) + preconditions(scn, v, o))
-        for oname, fn in oracles_for(scn):
-            rels = fn(scn, v, o)
+        if dom and spec.PID == "C03":
+            pp.prove("leaf-domain", z3.And(*[c for _l, c in dom]), handler(scn, "defined", o, spec))
+        pp.add_hyps([c for _l, c in dom] + spec.guarantees(scn, v, o, p.notes) + spec.preconditions(scn, v, o))
+        for oname, fn in spec.oracles_for(scn):
+            rels = fn(scn, v, dict(o, notes=p.notes) if "exc" not in o else o)
             if not rels:
                 continue
-            pp.prove(oname, rels, handler(scn, oname, o), sample=(pi == 0 and oname != "defined"))
+            pp.prove(oname, rels, handler(scn, oname, o, spec), sample=(pi == 0 and oname != "defined"))
             if oname == "grid":
                 # whatever is wrong with the grid is reported once, here
                 pp.add_hyps([r.z3() for r in rels])
@@ -527,6 +604,14 @@ def unit(job):
                       "path_condition": [str(c)[:100] for c in p.pc][:6]})
     validate(u, scn, paths)
     return u.r
+
+
+import sys as _sys      # noqa: E402
+_SELF = _sys.modules[__name__]
+
+
+def unit(job):
+    return run_unit(job, _SELF)
 
 
 # --------------------------------------------------------------------------
@@ -643,6 +728,15 @@ def configs(chk):
                 if shape == "scalar" or not quick:
                     for nc in ((2, 3) if quick else (2, 3, 4, 5)):
                         jobs.append(("slit1d", {"mode": mode, "shape": shape, "n": n, "grid": "user", "nc": nc}))
+    for n in (1, 2):
+        for acc in (("low", "med") if quick else ("low", "med", "high", "xhigh")):
+            jobs.append(("pinhole2d", {"n": n, "accuracy": acc}))
+    jobs.append(("pinhole2d", {"n": 2, "dq": "none"}))
+    jobs.append(("slit2d", {"n": 2}))
+    jobs.append(("perfect1d", {"n": 3}))
+    for dtype in ("perfect", "pinhole", "slit", "oriented", "Iqxy"):
+        for n in ((1, 2) if dtype not in ("pinhole", "slit") or not quick else (1,)):
+            jobs.append(("direct-model", {"dtype": dtype, "n": n}))
     return jobs
 
 
